@@ -41,7 +41,7 @@ def floors(tier):
     return {"graph_to_density:calls": 300, "graph_to_stabilizer:calls": 300, "density_to_graph:calls": 200,
             "stabilizer_to_graph:calls": 300, "stabilizer_to_graph:noncanonical_presentations": 200, "state_to_graph:calls": 500,
             "state_to_graph:with_hadamards": 100, "state_to_graph:negative_signs": 200, "convert:pairs": 1000,
-            "set:convert_pairs": 6, "graphs:n>=20": 20, "history:sequences": 200, "history:second_calls_on_same_object": 1500, "state_to_graph:zero_sign_bits_nonstandard_presentation": 30}
+            "set:convert_pairs": 6, "graphs:n>=20": 20, "history:sequences": 200, "history:refused_conversion_then_reuse": 60, "history:second_calls_on_same_object": 1500, "state_to_graph:zero_sign_bits_nonstandard_presentation": 30}
 
 
 class FinderProbe:
@@ -391,6 +391,43 @@ def check_history(A, ctx, rseed):
                 ctx.violation("conversion_depends_on_earlier_calls", case, {"function": name, "step": what, "expected_graph": want.tolist(), "got": got.tolist()},
                               key=f"hist_wrong:{name}:{what}")
                 break
+    # ---- a conversion that is refused (the stabilizer state held is not a graph state), caught by the caller, then the same
+    # object used further: the representation it says it holds must be the one it holds, and later conversions must be right
+    if 2 <= n <= 5 and A.any():
+        kinds = {"g": ("Graph",), "s": ("Stabilizer", "MixedStabilizer"), "dm": ("DensityMatrix",)}
+        try:
+            q = QuantumState(gq.nx_from_adj(A, None), rep_type="g")
+            q.convert_representation("s")
+            v = int(np.argmax(A.sum(axis=0)))          # a vertex with a neighbour: H on it leaves the graph-state form
+            q.rep_data.apply_hadamard(v)
+            refused = False
+            try:
+                q.convert_representation("g")
+            except Exception:
+                refused = True
+            ctx.count("history:refused_conversion_then_reuse" if refused else "history:non_graph_state_converted_to_graph")
+            if refused:
+                if type(q.rep_data).__name__ not in kinds.get(q.rep_type, ()):
+                    ctx.violation("state_object_inconsistent_after_refused_conversion", case, {"rep_type": q.rep_type, "held": type(q.rep_data).__name__},
+                                  key="hist_refused:rep_type")
+                else:
+                    q.rep_data.apply_hadamard(v)
+                    for b in ("g", "dm", "s"):
+                        q.convert_representation(b)
+                        if type(q.rep_data).__name__ not in kinds[b] or q.rep_type != b:
+                            ok = False
+                        elif b == "g":
+                            ok = np.array_equal(gq.adj_from_nx(q.rep_data.data, nodelist=range(n)), A)
+                        elif b == "s":
+                            ok = pauli.same_group_fast(gq.clifford_stab_ptab(q.rep_data.data), group_of(A))
+                        else:
+                            ok = np.allclose(q.rep_data.data, dense.ket2dm(dense.graph_state_vec(A)), atol=1e-8, rtol=0)
+                        if not ok:
+                            ctx.violation("convert_representation_wrong_after_refused_conversion", case, {"to": b, "rep_type": q.rep_type, "held": type(q.rep_data).__name__},
+                                          key=f"hist_refused:{b}")
+                            break
+        except Exception as e:
+            ctx.violation("convert_representation_raises", case, {"step": "after a refused conversion", "exception": _exc(e)}, key="hist_refused_exc")
     # ---- a QuantumState converted back and forth repeatedly
     if n <= 5:
         q = QuantumState(gq.nx_from_adj(A, None), rep_type="g")
